@@ -489,7 +489,9 @@ def callPy (cfg : Cfg) : Nat → Nat → List Val → List (String × Val) → B
             | [] => Option.none
           -- back in the caller's frame; a function body cannot rebind a module variable (no `global` statement in
           -- any template: `setVar` at depth > 0 writes the frame), which restoring `globals` states once, here
-          let σ3 := { σ2 with locals := σ.locals, depth := σ.depth, globals := σ.globals }
+          -- (likewise the function objects that existed before the call: attributes are only set on freshly made ones)
+          let σ3 := { σ2 with locals := σ.locals, depth := σ.depth, globals := σ.globals,
+                              fns := σ.fns ++ σ2.fns.drop σ.fns.length }
           match sg with
           | .ret v => .ok (v, first, σ3)
           | .normal => .ok (.none, first, σ3)
